@@ -523,6 +523,10 @@ def execute(plan):
                 flag, sid = r.next(op["ch"])
             entries = [spec_entry(s) for s in op["e"]]
             data = refdec.enc_sd_message(entries, sid, reboot=flag, unicast=op.get("uf", True))
+            if "e2" in op:
+                # a second SD message coalesced into the same datagram (TR_SOMEIP_00140), with the sender's next session id
+                flag2, sid2 = (flag, sid + 1) if "sess" in op else r.next(op["ch"])
+                data += refdec.enc_sd_message([spec_entry(s) for s in op["e2"]], sid2, reboot=flag2, unicast=op.get("uf", True))
             sim.inject(t, r.addr, NODE_ADDR, op["ch"], data)
         elif k == "raw":
             sim.inject(t, rogues[op["p"]].addr, SVC_ADDR if op.get("to") == "svc" else NODE_ADDR, op["ch"], bytes.fromhex(op["hex"]))
